@@ -49,6 +49,7 @@ class Summary:
         self.ok = len(self.outer) == 1 and len(self.inner) == 1 and self.inner[0].id in self.outer[0].inner
         if self.ok:
             self.Lo, self.Li = self.outer[0], self.inner[0]
+            _records_as_modes(self.Li)
             # result dict variable: the one returned
             r = self.sx.ret
             self.res_var = r[2] if r[0] == "res" else None
@@ -57,6 +58,42 @@ class Summary:
                 _failed_set_as_flag(self)
             except (KeyError, IndexError, TypeError):
                 pass
+
+
+def _records_as_modes(Li):
+    """`for mode in ((True, ""), (False, "_no_prune")):` - the two passes written as records (pruning flag, suffix, ...).  The
+    component that holds True in the first record and False in the second IS the mode; every other component is a value chosen by
+    the mode.  The loop is rewritten to the plain form `for mode in [True, False]` that the rules read."""
+    src_ = Li.source
+    if src_[0] not in ("list", "tup") or len(src_[1]) != 2 or not all(x[0] in ("tup", "list") for x in src_[1]):
+        return
+    r0, r1 = src_[1][0][1], src_[1][1][1]
+    if len(r0) != len(r1) or not r0:
+        return
+    ks = [i for i in range(len(r0)) if is_const(r0[i]) and is_const(r1[i]) and r0[i][1] is True and r1[i][1] is False]
+    if len(ks) != 1:
+        return
+    k = ks[0]
+    el = ("elem", Li.id)
+
+    def f(x):
+        if x[0] == "idx" and x[1] == el and is_const(x[2]) and isinstance(x[2][1], int) and not isinstance(x[2][1], bool) and 0 <= x[2][1] < len(r0):
+            j = x[2][1]
+            return ("$mode$",) if j == k else simp(("ite", ("truthy", ("$mode$",)), r0[j], r1[j]))
+        return None
+
+    def rw(t):
+        return subst(t, f) if isinstance(t, tuple) else t
+    new_update = {v: rw(u) for v, u in Li.update.items()}
+    new_effects = [tuple(rw(x) if isinstance(x, tuple) and x and isinstance(x[0], str) else x for x in e) for e in Li.effects]
+    if any(mentions(t, lambda y: y == el) for t in list(new_update.values()) + [x for e in new_effects for x in e if isinstance(x, tuple) and x and isinstance(x[0], str)]):
+        return          # the record is also used as a whole: not rewritten
+    back = lambda t: subst(t, lambda y: el if y == ("$mode$",) else None) if isinstance(t, tuple) else t
+    from ..symx import deep_simp
+    Li.update = {v: deep_simp(back(u)) for v, u in new_update.items()}
+    Li.effects = [tuple(deep_simp(back(x)) if isinstance(x, tuple) and x and isinstance(x[0], str) else x for x in e) for e in new_effects]
+    Li.orig_source = Li.source
+    Li.source = ("list", (C(True), C(False)))
 
 
 def _failed_set_as_flag(s):
@@ -155,6 +192,9 @@ def r1_keys(ctx, chk, rule="C12.1"):
         return None
     Lo, Li = s.Lo, s.Li
     modes = Li.source[1]
+    if not all(is_const(x) for x in modes):
+        chk.undecided(rule, f.where(Li.node), "the mode loop runs over `%s`: which part of an element is the pruning mode is not recognised" % show(Li.source)[:120])
+        return None
     if len(modes) != 2 or not (is_const(modes[0]) and is_const(modes[1]) and modes[0][1] is True and modes[1][1] is False):
         chk.violation(rule, f.where(Li.node), "the mode loop runs over `%s`; specification: pruned first, then unpruned ([True, False])" % show(Li.source), expected="[True, False]",
                       found=show(Li.source), construct="run_games mode list")
@@ -202,6 +242,10 @@ def r1_keys(ctx, chk, rule="C12.1"):
     want = [name0, simp(("strcat", name0, C("_no_prune")))]
     if keys == want:
         chk.ok(rule, f.where(Li.node), "keys of the two entries of a game: `%s` (pruned, first) and `%s` (unpruned) - distinct for every name" % (show(keys[0]), show(keys[1])))
+    elif keys[0] == want[0] and keys[1][0] == "add" and set(keys[1][1]) == {name0, C("_no_prune")}:
+        # `name + suffix` with the suffix a value that only turned out to be a string after the records were written out: the
+        # executor read the `+` of two operands of unknown type as a sum, which forgets the order of a concatenation
+        chk.undecided(rule, f.where(Li.node), "the second key is `%s`, a `+` whose operand order was not kept: name + '_no_prune' or '_no_prune' + name is not decided" % show(keys[1]))
     elif keys[0] == keys[1]:
         chk.violation(rule, f.where(Li.node), "both modes store their entry under the same key `%s`: the second overwrites the first" % show(keys[0]), expected=[show(k) for k in want],
                       found=[show(k) for k in keys], construct="run_games keys coincide")
